@@ -50,7 +50,46 @@ def write_tables(rows):
     if not os.path.exists(p) or open(p).read() != txt:
         with open(p, "w") as f:
             f.write(txt)
+    C.want_gen(p, txt)
     return len(tr), len(ms), len(dc)
+
+
+def race_pair(ctx):
+    """SetDCList (map write) concurrent with tryToProcessErr (map read) under the Go race detector.
+    Informational: the property quantifies over requests in flight, not over configuration calls made
+    concurrently with them (telegram.NewClient calls SetDCList before it hands the client out); the result
+    is recorded in the evidence and as a note, never as a violation."""
+    import subprocess
+    md = C.BUILD + "/gomod/root-race"
+    os.makedirs(md, exist_ok=True)
+    hd = C.V + "/harness/root"
+    with open(md + "/go.mod", "w") as f:
+        f.write(open(hd + "/go.mod").read().replace("=> /repo", "=> " + C.REPO))
+    with open(md + "/go.sum", "wb") as f:
+        f.write(open(C.REPO + "/go.sum", "rb").read())
+    env = dict(C.GOENV)
+    env["CGO_ENABLED"] = "1"
+    out = C.BIN + "/h_root_cmd_c17race"
+    res = {"ran": True}
+    rc, o = C.sh(["go", "build", "-race", "-modfile", md + "/go.mod", "-tags", "verif", "-o", out, "./cmd/c17race"], cwd=hd, env=env, timeout=900)
+    if rc != 0:
+        res["race_detector"] = "unavailable (go build -race failed: %s)" % o.strip().splitlines()[-1:] 
+        rc, o = C.sh(["go", "build", "-modfile", md + "/go.mod", "-tags", "verif", "-o", out, "./cmd/c17race"], cwd=hd, timeout=900)
+        if rc != 0:
+            raise C.BuildError("c17race does not build: " + o[-1500:])
+    else:
+        res["race_detector"] = "available"
+    p = subprocess.run([out], stdout=subprocess.PIPE, stderr=subprocess.PIPE, timeout=300)
+    err = p.stderr.decode("utf-8", "replace")
+    res["exit"] = p.returncode
+    res["data_race_reports"] = err.count("WARNING: DATA RACE")
+    res["runtime_abort_concurrent_map"] = "concurrent map" in err
+    if res["data_race_reports"] or res["runtime_abort_concurrent_map"]:
+        first = [l.strip() for l in err.splitlines() if "mtproto.(*MTProto)" in l][:2]
+        ctx.notes.append("SetDCList called concurrently with the handling of PHONE_MIGRATE_X is a data race on the DC table (%s); "
+                         "not counted as a violation of C17: the property speaks of requests in flight, and NewClient calls SetDCList before "
+                         "the client is handed out" % ", ".join(first))
+    return res
 
 
 def e_replay(code, text, expected, got, oracle, fields=None):
@@ -93,6 +132,10 @@ def fields_hold(flds, impl):
     if impl[0] != "ok" or len(impl) < 5:
         return False
     if flds.get("description_has_no_fmt_marker") and b"%!" in unhex(impl[4]):
+        return False
+    if flds.get("errtext") and (len(impl) < 6 or impl[5] != flds["errtext"]):
+        return False
+    if any(k.lower() not in show(impl[4]).lower() for k in flds.get("description_keywords", [])):
         return False
     return all(impl[idx[k]] == str(v) for k, v in flds.items() if k in idx)
 
@@ -150,6 +193,8 @@ def run(ctx):
     nontrivial = set()
     disagreements = 0
     unmodelled_fmt = 0
+    errtexts = 0
+    spots = 0
     fmt_compared = 0
     fmt_outside = 0
     samples = []
@@ -162,8 +207,8 @@ def run(ctx):
         m = model.get(cid)
         if kind == "E":
             code, text = r[2], r[3]
-            impl = r[4:9]
-            expect = r[9:]
+            impl = r[4:10]
+            expect = r[10:]
             tb = unhex(text)
             key = "input:" + text
             if any(tb.startswith(p) and tb.endswith(s) for (p, s) in table) or tb in names:
@@ -181,6 +226,16 @@ def run(ctx):
                 C.violation(ctx, key, "RpcErrorToNative(%r): Code %s, server sent %s" % (show(text), impl[3], code),
                             e_replay(code, text, "code=" + code, fmt_impl(impl), "direct: code", {"code": code}))
                 continue
+            if impl[5] != "ok":
+                # Error() must carry the description verbatim and nothing fmt wrote by accident (a server text used as a format)
+                what = impl[5].split(":", 1)
+                C.violation(ctx, key, "RpcErrorToNative(%r).Error() = %r: the description %r is %s"
+                            % (show(text), show(what[1]) if len(what) > 1 else "?", show(impl[4]),
+                               "not in it" if what[0] == "lost" else "surrounded by formatting diagnostics"),
+                            e_replay(code, text, "Error() contains the description verbatim and no %!verb(...) / (MISSING) / (EXTRA ...) around it",
+                                     "Error() = %r" % (show(what[1]) if len(what) > 1 else "?"), "direct: error text", {"errtext": "ok"}))
+                continue
+            errtexts += 1
             # direct oracle for the documented shapes (independent of the Coq model)
             if expect and expect[0] != "?":
                 ok, want, flds = True, "", {}
@@ -190,6 +245,21 @@ def run(ctx):
                 elif expect[0] == "shape":
                     want = "message=%r info=i:%s" % (show(expect[1]), expect[2])
                     flds = {"message_hex": expect[1], "info": "i:" + expect[2]}
+                elif expect[0] == "spot":
+                    spots += 1
+                    want = "message=%r info=%s" % (show(expect[1]), expect[2])
+                    flds = {"message_hex": expect[1], "info": expect[2]}
+                    if expect[3] != "-":
+                        want += " description=%r" % show(expect[3])
+                        flds["description_hex"] = expect[3]
+                    kws = [show(k) for k in expect[4].split(",") if k]
+                    missing = [k for k in kws if k.lower() not in show(impl[4]).lower()]
+                    if fields_hold(flds, impl) and missing:
+                        C.violation(ctx, key, "RpcErrorToNative(%r): the description %r does not mention %s (hand-typed table of well-known errors)"
+                                    % (show(text), show(impl[4]), missing),
+                                    e_replay(code, text, want + " mentioning %s" % kws, fmt_impl(impl), "direct: spot table of well-known errors",
+                                             dict(flds, description_keywords=kws)))
+                        continue
                 elif expect[0] == "name":
                     want = "message=%r info=nil description=%r" % (show(text), show(expect[1]))
                     flds = {"message_hex": text, "info": "nil", "description_hex": expect[1]}
@@ -269,7 +339,7 @@ def run(ctx):
         elif kind in ("M", "D"):
             if kind == "M":
                 dcs, code, text = r[2], r[3], r[4]
-                impl = r[5:7]
+                impl = r[5:8]
                 key = "migrate:%s:%s" % (dcs, text)
                 what = "makeRequest error path on %r with DC table {%s}" % (show(text), dcs)
                 rep = {"kind": "M", "dcs": dcs, "code": int(code), "text_hex": text, "text": show(text)}
@@ -277,7 +347,7 @@ def run(ctx):
                     nontrivial.add(("M", dcs, text))
             else:
                 dcs, msg, info = r[2], r[3], r[4]
-                impl = r[5:7]
+                impl = r[5:8]
                 key = "process:%s:%s:%s" % (dcs, msg, info)
                 what = "tryToProcessErr(Message=%r, AdditionalInfo=%s) with DC table {%s}" % (show(msg), info, dcs)
                 rep = {"kind": "D", "dcs": dcs, "message_hex": msg, "message": show(msg), "info": info}
@@ -287,6 +357,12 @@ def run(ctx):
             if impl[0] == "P":
                 rep.update({"expected": "an error or a switch of address (no panic)", "got": got, "oracle": "direct: panic"})
                 C.violation(ctx, key, "%s panics: %s" % (what, show(impl[1])), rep)
+                continue
+            if len(impl) > 2 and impl[2] not in ("ok", "-"):
+                what = impl[2].split(":", 1)
+                rep.update({"expected": "the returned error's text contains the description verbatim and no fmt diagnostics around it",
+                            "got": "Error() = %r" % (show(what[1]) if len(what) > 1 else "?"), "oracle": "direct: error text"})
+                C.violation(ctx, key, "%s: the text of the returned error is %r" % (what and what[0], show(what[1]) if len(what) > 1 else "?"), rep)
                 continue
             want = "%s addr=%r" % (m[0], show(m[1])) if m and len(m) > 1 else str(m)
             if m is None or m[0:2] != impl[0:2]:
@@ -301,10 +377,8 @@ def run(ctx):
     ctx.notes.append("catalogue name 2FA_CONFIRM_WAIT_X has no row in specificErrors (its description has no verb): "
                      "texts 2FA_CONFIRM_WAIT_<n> are delivered as unknown errors with the number left in the message; "
                      "outside the 15-row quantifier of C17, reported for information")
-    ctx.notes.append("end-to-end delivery through MakeRequest (reconnect to the new DC, request repeated, other calls in flight) "
-                     "needs the in-process reference server and is covered by the client work package; here the real "
-                     "tryToProcessErr is driven on an unconnected client whose DC addresses cannot be dialled")
     mcov = c17m.stage(ctx)   # end-to-end half against the in-process server
+    racecov = race_pair(ctx) if ctx.tier == "thorough" else {"ran": False, "why": "thorough tier only"}
     cov = C.proof_coverage(
         pr, "make -f Makefile.coq theories/Props/C17.vo theories/Inst/C17i.vo (coqc 8.16.1) in /verif/coq",
         ["gen/ErrTables.v regenerated each run from specificErrors / errorMessages / defaultDCList through the add-only "
@@ -318,7 +392,8 @@ def run(ctx):
         {"evaluations": evals, "distinct_nontrivial": len(nontrivial),
          "rule": "E: error texts = corpus + every table row x boundary parameter list (ints incl. negative, 0, +5, -0, leading zeros, "
                  "2^31, 2^63-1, 2^63, 2^64, 40-digit, empty, non-digit, trailing junk, unicode digits, % verbs) + random ints per row + "
-                 "truncations/overlaps/doublings/crossings of rows + every catalogued name (and two mutations) + random strings "
+                 "truncations/overlaps/doublings/crossings of rows + every catalogued name (and two mutations) + a hand-typed table of well-known (code, text) -> description / key words, "
+                 "independent of errorMessages + texts made of formatting verbs (unknown names and row names) under several codes + random strings "
                  "(soup with % verbs, prefixes of rows, random bytes, mutated names), each with a random code; run through TryExpandError and "
                  "RpcErrorToNative and through the extracted to_native. F: fmt.Sprintf vs sprintf1 on every catalogue text and random formats. "
                  "M: RpcErrorToNative + the real tryToProcessErr vs handle, D: tryToProcessErr on hand-made errors vs process_err, over DC tables "
@@ -330,11 +405,14 @@ def run(ctx):
          "samples": samples, "input_distribution": stats, "disagreements_checked": disagreements,
          "coqchk": coqchk or "thorough tier only",
          "descriptions_outside_fmt_model": unmodelled_fmt,
+         "error_texts_checked": errtexts, "spot_oracle_rows": spots,
          "sprintf_cases_compared": fmt_compared, "sprintf_cases_outside_modelled_subset": fmt_outside,
-         "projection": "panic or not; Message; AdditionalInfo nil / int value / string; Code; Description bytes; for migration: "
+         "projection": "panic or not; Message; AdditionalInfo nil / int value / string; Code; Description bytes; of Error() only whether it carries the "
+                       "description verbatim without fmt diagnostics (%!verb, MISSING, EXTRA) around it; for migration: "
                        "class (error itself / error wrapping it / address switched) and the client's address afterwards; panic texts, "
                        "error strings and wrap chains are not compared"})
     cov.update(mcov)
+    cov["setdclist_concurrent_with_migrate"] = racecov
     return C.finish(ctx, "proof", cov, [
         "Go int is 64 bits",
         "fmt.Sprintf and strconv.Atoi behave as the Gallina re-implementations on the subset used (checked by the correspondence, not proved)",
@@ -343,6 +421,8 @@ def run(ctx):
 
 def replay(ctx, path):
     obj = json.load(open(path))
+    if str(obj.get("key", "")).startswith("migrate-live:"):
+        return c17m.replay(ctx, path)
     if obj.get("kind") == "H":
         hb = C.build_harness("root", pkg="./cmd/c17")
         rc, out = C.sh([hb, "one", "H", obj["ops"]], env=ctx.env())
